@@ -104,7 +104,7 @@ func (s *MultiFieldFilterReader) getAllHashes(expr []*SKRPNElement) {
 		hashValues := make([]uint64, 0)
 		var currTokenizer tokenizer.Tokenizer
 		if split, ok := s.splitMap[leftV]; ok {
-			currTokenizer = tokenizer.NewSimpleGramTokenizer(split, s.version, s.missSplitIndex[leftV])
+			currTokenizer = tokenizer.NewPhraseTokenizer(split, s.version, s.missSplitIndex[leftV])
 		} else {
 			return
 		}
